@@ -1,4 +1,4 @@
-CONSTANTS MaxDepth = 2 Mode = "spec"
+CONSTANTS MaxDepth = 2 Mode = "spec" WideLast = TRUE
 INIT Init
 NEXT Next
 INVARIANT Laws
